@@ -8,13 +8,14 @@ git -C /repo worktree add -q --detach $WT HEAD || exit 9
 cmake -G Ninja -S $WT -B $WT/_build >/dev/null 2>&1 && cmake --build $WT/_build >/dev/null 2>&1
 ctest --test-dir $WT/_build -j8 2>&1 | grep -E "^ *[0-9]+/[0-9]+ Test" | sed 's/ *[0-9.]* sec//; s/^ *[0-9]*\/[0-9]* //' | sort > /tmp/confirm_base.txt
 HEADREV=$(git -C /repo rev-parse --short HEAD)
-for D in /verif/seeded/C*-*; do
+for D in ${SEEDS:-/verif/seeded/C*-*}; do
   S=$(basename $D); P=$D/patch.diff; [ -f $D/patch.rebased.diff ] && P=$D/patch.rebased.diff
   OUT=$D/confirm_head.txt
   ( cd $WT && git checkout -q -- . && git clean -fdq -e _build
     run_demo() {
       if [ -f $D/demo.sh ]; then ( NITRO_INC=$WT/include sh $D/demo.sh >/dev/null 2>&1 ); return $?; fi
-      g++ -std=gnu++17 -O1 -I$WT/include $D/demo.cpp $WT/_build/libnitro-options.a $WT/_build/libnitro-env.a -ldl -pthread -o /tmp/demo_$S 2>/dev/null || return 99
+      FL=-O1; [ -f $D/demo.flags ] && FL=$(cat $D/demo.flags)
+      g++ -std=gnu++17 $FL -I$WT/include $D/demo.cpp $WT/_build/libnitro-options.a $WT/_build/libnitro-env.a -ldl -pthread -o /tmp/demo_$S 2>/dev/null || return 99
       ( cd $D && timeout 120 /tmp/demo_$S >/dev/null 2>&1 ); R=$?; rm -f /tmp/demo_$S; return $R
     }
     run_demo; WO=$?
